@@ -2,15 +2,56 @@
   BV.OracleMain — dispatcher of the Spec oracles (`oracle <PROP> <op…> => <impl result> [<= <aux result>]`).
 -/
 import BV.Oracle2
+import BV.Spec.Aztec
 namespace BV.Oracle
 open BV
 
 def splitAt (sep : String) (l : List String) : List String × List String :=
   (l.takeWhile (· ≠ sep), (l.dropWhile (· ≠ sep)).drop 1)
 
-/-- Aztec oracles are plugged in here once BV.Spec.Aztec exists -/
-def aztecStructural (_op : List String) (_o : Obs) : Verdict := .na
-def aztecEcc (_op : List String) (_o : Obs) : Verdict := .na
+/-- ISO/IEC 24778: symbol dimension of a layer request (negative = compact) -/
+def aztecSizeOf (req : Int) : Nat :=
+  if req < 0 then 11 + 4 * req.natAbs else 15 + 4 * req.toNat + 2 * ((2 * req.toNat + 6) / 15)
+
+/-- C03: structure + round trip + the explicit layer request is honoured exactly -/
+def aztecStructural (op : List String) (o : Obs) : Verdict :=
+  match op with
+  | ["aztec", c, pct, layers] =>
+    let content := hexArg c
+    let pct := pct.toInt?.getD 0
+    let req := layers.toInt?.getD 0
+    if pct < 0 ∨ req < -4 ∨ req > 32 then .na
+    else if o.cls = "rej" then .na
+    else if o.cls ≠ "ok" then .fail "aztec-crash" o.cls
+    else
+      let p := o.pic
+      if !p.twoColour then .fail "aztec-colours" "pixels are not exactly the two scheme colours" else
+      match Spec.Aztec.decode p.w p.h p.dark with
+      | .error e =>
+        if content.isEmpty then .fail "aztec-empty-payload" e else .fail "aztec-structure" e
+      | .ok info =>
+        if info.content ≠ content then .fail "aztec-roundtrip" "decoded payload differs"
+        else if req ≠ 0 ∧ (info.compact ≠ decide (req < 0) ∨ info.layers ≠ req.natAbs) then
+          .fail "aztec-layers" "explicit layer request not honoured"
+        else .pass
+  | _ => .na
+
+/-- C12 for Aztec: check bits amount to at least the requested percentage of the data bits
+    (data bits = un-stuffed stream minus the at most wordSize-1 trailing pad bits) -/
+def aztecEcc (op : List String) (o : Obs) : Verdict :=
+  match op with
+  | ["aztec", c, pct, layers] =>
+    let pct := pct.toInt?.getD 0
+    let req := layers.toInt?.getD 0
+    if pct < 0 ∨ req < -4 ∨ req > 32 ∨ o.cls ≠ "ok" ∨ (hexArg c).isEmpty then .na else
+    let p := o.pic
+    match Spec.Aztec.decode p.w p.h p.dark with
+    | .error e => .fail "ecc-aztec" ("symbol does not decode: " ++ e)
+    | .ok info =>
+      let dataBits := info.streamBits - (info.wordSize - 1)
+      if info.checkWords * info.wordSize * 100 ≥ pct.toNat * dataBits then .pass
+      else .fail "ecc-aztec" s!"{info.checkWords} check words of {info.wordSize} bits are less than {pct}% of {dataBits} data bits"
+  | _ => .na
 
 def structuralAll (op : List String) (o : Obs) : Verdict :=
   match op.head? with
